@@ -67,6 +67,7 @@ class Registry:
         self.stubs = {}
         self.axioms = []         # callables ctx -> [z3 Bool]
         self.replays = {}        # obligation-id prefix -> callable(model_info) -> dict
+        self.abstract = set()    # classes never instantiated directly (checked by a static scan)
 
     def contract(self, *a, **k):
         c = Contract(*a, **k)
@@ -102,3 +103,4 @@ class Registry:
         self.stubs.update(other.stubs)
         self.axioms.extend(other.axioms)
         self.replays.update(other.replays)
+        self.abstract |= other.abstract
